@@ -3,7 +3,7 @@
    geometries, as entry codes (0 = F, k+1 = dimension k). *)
 From Coq Require Import QArith ZArith List Bool.
 From SF Require Import Base.GeomAST Base.QKernel Base.Planar Model.Relate Model.Empty.
-From SF Require Model.Envelope Model.Measure.
+From SF Require Model.Envelope Model.Measure Model.TWKB.
 Import ListNotations.
 
 Definition zq_vtx (v : vtx Z) : vtx Q := Build_vtx (inject_Z (vx v)) (inject_Z (vy v)) (inject_Z (vz v)) (inject_Z (vm v)).
@@ -38,3 +38,19 @@ Definition env_z (g : geomT Z) : option (Z * Z * (Z * Z)) :=
   | Some b => Some (Envelope.minx b, Envelope.miny b, (Envelope.maxx b, Envelope.maxy b))
   end.
 Definition area2_q (g : geomT Z) : Q := Qred (2 * Measure.geom_area false None (zq_geom g)).
+
+(* The bounding box that MarshalTWKB(g, ..., TWKBBoundingBoxHeader()) must announce (Model/TWKB.v:
+   expected_info, the specification of C07): (min, max) per wire dimension X Y [Z] [M] over all
+   vertices; None when g has no vertex.  Empty members have no vertices, so it cannot see them
+   (Props/C20.v: insert_twkb_bbox). *)
+Definition twkb_bbox_z (g : geomT Z) : option (list (Z * Z)) := TWKB.env_of (TWKB.geom_pts g).
+
+(* geom/twkb_write.go:writeMultiPoint refuses (error return, finding F5) an empty Point inside a
+   non-empty MultiPoint, at any depth: the only geometries with empty members TWKB cannot carry
+   (the clause of TWKB.geom_dom for GMPoint, read as a predicate of the geometry alone) *)
+Fixpoint twkb_refuses (g : geomT Z) : bool :=
+  match g with
+  | GMPoint _ ps => negb (forallb point_empty ps) && existsb point_empty ps
+  | GColl _ gs => existsb twkb_refuses gs
+  | _ => false
+  end.
